@@ -239,6 +239,12 @@ def licensed_tree(rng, lang, token_fn, max_leaves=9, want_label=None, tokens=Non
             elif want_label is not None and ix.unary_by_label.get(want_label):
                 ux, ur = rng.choice(ix.unary_by_label[want_label])
                 t = Tree.make_unary(ur.cat, expand(ux, 1, False), ur.op_string, ur.op_symbol)
+            elif want_label is None and tokens is None and rng.random() < 0.08 and ix.unary_index:
+                ucat = rng.choice([c for c in ix.unary_index])
+                ux, ur = rng.choice(ix.unary_index[ucat])
+                if ux not in ix.inv_set:
+                    raise LookupError(ux)
+                t = Tree.make_unary(ucat, leaf(ux), ur.op_string, ur.op_symbol)      # one-word sentence: unary step at the root
             else:
                 root = rng.choice(ix.roots)
                 t = expand(root, 0, True)
@@ -275,11 +281,12 @@ def arbitrary_tree(rng, lang, token_fn, max_leaves=7, labels=None, tokens=None):
     def build(k, at_root):
         cat = rng.choice(ix.inventory)
         if k == 1:
-            if rng.random() < 0.2 and not at_root:
+            if rng.random() < 0.2:
                 lab = rng.choice(ulabels)
                 return Tree.make_unary(cat, Tree.make_terminal(tok(), rng.choice(ix.inventory)), lab[0], lab[1])
             return Tree.make_terminal(tok(), cat)
-        if rng.random() < 0.12 and not at_root:
+        if (rng.random() < 0.12 and not at_root) or (at_root and rng.random() < 0.06):
+            # (a unary step at the root occurs in parser output for one-word sentences; arbitrary trees may have it anywhere)
             lab = rng.choice(ulabels)
             return Tree.make_unary(cat, build(k, False), lab[0], lab[1])
         j = rng.randint(1, k - 1)
@@ -326,7 +333,10 @@ def make_batch(rng, lang, domain='any', max_sentences=4, max_nbest=3, licensed_s
                     t = None
             trees.append(t or arbitrary_tree(rng, lang, token_fn, tokens=toks))
         score = -rng.random() * 10
-        batch.append([ScoredTree(t, score - i * 0.5) for i, t in enumerate(trees)])
+        scores = [score - i * 0.5 for i in range(len(trees))]
+        if rng.random() < 0.25:
+            rng.shuffle(scores)          # result lists built by a caller need not be sorted
+        batch.append([ScoredTree(t, sc) for t, sc in zip(trees, scores)])
     return batch
 
 
